@@ -66,6 +66,7 @@ def cases(tier, seed, rng):
         out.append(Case(tree_history(rng, tier), 'gen:tree'))
     rounds = 2 if tier == 'quick' else 25
     for r in range(rounds):
+        out.append(Case(['id_new 2', 'id_threads %d %d' % (rng.choice([2, 4, 8]), rng.choice([2000, 5000])), 'id_new 2'], 'gen:race-threads'))
         out.append(Case(['id_race exec 8 %d' % rng.choice([30, 100, 200])], 'gen:race-exec'))
         out.append(Case(['id_new 5', 'id_race fork %d %d' % (rng.choice([4, 8]), rng.choice([30, 100])), 'id_new 5'], 'gen:race-fork'))
         # a pre-fork worker pool: a freshly started process forks its workers BEFORE it has created an id itself
